@@ -284,10 +284,12 @@ def run_unit(unit, tag="", substs=None, canary=None, seed=None, rlimit=RLIMIT, i
         status = "timeout"
     elif tool_errors or vr.get("encountered-vir-error") or not vr:
         status = "tool-error"
+    elif failures:
+        status = "failed"      # definite proof failures (possibly next to a resource-limit hit elsewhere)
     elif rlimits:
         status = "rlimit"
-    elif failures or not vr.get("success"):
-        status = "failed" if failures else "tool-error"
+    elif not vr.get("success"):
+        status = "tool-error"
     return dict(unit=unit, status=status, meta=meta, res=res, failures=failures, tool_errors=tool_errors,
                 rlimits=rlimits, verified=vr.get("verified", 0), errors=vr.get("errors", 0),
                 breakdown=fn_breakdown(res), trust=scan_trust(out), out=out)
